@@ -110,6 +110,19 @@ def rule_conversions(ctx, repo):
         sites = conv_sites(fi)
         for conv, inner, node in sites:
             key = '%s:%s' % (name, inner)
+            # the conversion happens on every path: not behind another statement of a try whose handler carries on
+            st_ = node
+            while getattr(st_, '_parent', None) is not None and not isinstance(st_, ast.stmt):
+                st_ = st_._parent
+            cur_ = st_
+            while getattr(cur_, '_parent', None) is not None and cur_ is not fi.node:
+                par_ = cur_._parent
+                if isinstance(par_, ast.Try) and cur_ in par_.body and par_.body.index(cur_) > 0:
+                    soft = [h for h in par_.handlers if not any(isinstance(x, ast.Raise) for x in ast.walk(h))]
+                    if soft:
+                        r.violated('skippable:%s' % key, common.site_of(fi, node), 'the conversion of `%s` in Proxy.%s sits behind `%s` inside a try whose `except %s` carries on: when that '
+                                   'statement raises, the value is handed out unconverted (the wire form)' % (inner, name, norm(par_.body[0])[:50], norm(soft[0].type) if soft[0].type is not None else ''), sure=True)
+                cur_ = par_
             want = TABLE.get((name, inner))
             if want is None:
                 # the same crossing under another spelling of the value (a renamed local, the call written in place):
